@@ -12,7 +12,7 @@ class C12(SessionCheck):
             'point (requests in flight, worker at any program point), after which the environment answers as a closed transport does '
             '(no event / EOF / write error), for 14 profiles; failed connects (hello timeout) followed by close; plus real-socket sessions '
             '(Unix; TLS with harness-made certificates): close_session, with-block with and without exception, a server that never '
-            'answers <close-session>, a request in flight at close, failed hello (malformed, peer closes at once), and open/close cycles '
+            'answers <close-session> (also with the manager in asynchronous mode), a peer that stops reading while a large request is being written (duration of the closing call measured), a request in flight at close, failed hello (malformed, peer closes at once), and open/close cycles '
             'counting threads and file descriptors. Non-trivial = history >= 8 commands / any socket run.')
     ASSUMPTIONS = ['what epoll / paramiko report for a locally closed descriptor is the environment parameter of the model '
                    '(Spec/Session.lean workerOpClosed); the real-socket runs observe it on Linux for Unix and TLS sockets; '
@@ -32,7 +32,12 @@ class C12(SessionCheck):
             # closing while the worker is inside a write to a peer that no longer reads (connect timeout 3 s bounds the write)
             if tier == 'thorough' or tr != 'ssh':
                 out.append({'kind': 'e2e', 'life': True, 'sc': {'mode': 'close', 'transport': tr, 'how': 'close_session', 'blocked_writer': 24 * 1024 * 1024,
-                                                                 'worker_deadline': 6.5}})
+                                                                 'connect_timeout': 6, 'worker_deadline': 10}})
+            # an application in asynchronous mode closes the session; the server never answers <close-session>
+            if tier == 'thorough' or tr == 'unix':
+                out.append({'kind': 'e2e', 'life': True, 'sc': {'mode': 'close', 'transport': tr, 'how': 'close_session', 'async_close': True,
+                                                                 'no_close_reply': True}})
+                out.append({'kind': 'e2e', 'life': True, 'sc': {'mode': 'close', 'transport': tr, 'how': 'close_session', 'async_close': True}})
             for what in ('bad-hello', 'close-at-once'):
                 out.append({'kind': 'e2e', 'life': True, 'sc': {'mode': 'failed-hello', 'transport': tr, 'what': what, 'timeout': 0.6}})
             if tr == 'ssh':
@@ -62,7 +67,10 @@ class C12(SessionCheck):
                 if io.get('connected_after'):
                     return ('C12:still-connected' + key, 'session reports connected after close (%s)' % io.get('close'))
                 if io.get('worker_alive'):
-                    return ('C12:worker-alive' + key, 'session thread still alive %.1f s after close' % io.get('worker_deadline', 1.5))
+                    return ('C12:worker-alive' + key, 'session thread still alive %.1f s after close' % io.get('worker_deadline', 4))
+                # the closing call itself is a synchronous request: it returns or raises within its timeout (+ scheduling slack)
+                if io.get('close_dt', 0) > (io.get('call_timeout') or 30) + 2.5 or (not sc.get('no_close_reply') and not sc.get('blocked_writer') and io.get('close_dt', 0) > 4):
+                    return ('C12:close-outlived-timeout' + key, 'closing took %.1f s (request timeout %.1f s)' % (io.get('close_dt', 0), io.get('call_timeout') or 30))
                 if not io.get('eof_seen'):
                     return ('C12:peer-sees-no-eof' + key, 'the peer never saw the connection closed')
                 if io.get('listener_calls_after_close'):
